@@ -291,7 +291,7 @@ func genDoc(r *coqfmt.Rng, t reflect.Type, bad *int) *doc {
 		}
 		return dL(l...)
 	case t == tDur:
-		if *bad > 0 && r.Chance(1, 3) {
+		if *bad > 0 && r.Chance(2, 3) {
 			// a number written as a STRING is not a duration (time.ParseDuration wants a unit) - in every format
 			*bad--
 			return dS(coqfmt.Pick(r, []string{"1500", "-20", "+7", "5", "00", "1000000000", "-0x10", "1_000"}))
